@@ -51,6 +51,7 @@ func IterUpdate(txn *lmdb.Txn, dbi lmdb.DBI, it Iterator) error {
 				if err != nil {
 					return fmt.Errorf("del cleaned: %w", err)
 				}
+				observeWrite(it)
 				return nil
 			}
 			if bytes.Equal(val, dbVal) {
@@ -61,6 +62,7 @@ func IterUpdate(txn *lmdb.Txn, dbi lmdb.DBI, it Iterator) error {
 			if err != nil {
 				return fmt.Errorf("put cleaned: %w", err)
 			}
+			observeWrite(it)
 			return nil
 		}
 
@@ -81,6 +83,7 @@ func IterUpdate(txn *lmdb.Txn, dbi lmdb.DBI, it Iterator) error {
 			if err != nil {
 				return fmt.Errorf("lmdb append: %w", err)
 			}
+			observeWrite(it)
 			return nil
 		}
 
@@ -95,6 +98,7 @@ func IterUpdate(txn *lmdb.Txn, dbi lmdb.DBI, it Iterator) error {
 			if err != nil {
 				return fmt.Errorf("put: %w", err)
 			}
+			observeWrite(it)
 			return nil
 		}
 
@@ -109,6 +113,7 @@ func IterUpdate(txn *lmdb.Txn, dbi lmdb.DBI, it Iterator) error {
 			if err != nil {
 				return fmt.Errorf("del: %w", err)
 			}
+			observeWrite(it)
 			return nil
 		}
 		if bytes.Equal(val, dbVal) {
@@ -120,6 +125,7 @@ func IterUpdate(txn *lmdb.Txn, dbi lmdb.DBI, it Iterator) error {
 		if err != nil {
 			return fmt.Errorf("put current: %w", err)
 		}
+		observeWrite(it)
 		return nil
 	})
 	if err != nil {
